@@ -16,25 +16,32 @@ theorem xedges_core (t : Tables) : xedges (coreX t) = edges t := by
   unfold xedges errEdges coreX
   simp
 
+theorem reachClosed_core {g : Grammar} {t : Tables} {cert : Cert} (hc : CertFacts g t cert) :
+    ReachClosed g (coreX t) cert :=
+  reachClosed (x := coreX t) hc (fun i _ p X q hm _ => by
+    unfold errEdges coreX at hm; simp at hm)
+
 variable {g : Grammar} {t : Tables} {cert : Cert}
 
 /-- the C01 stack invariant gives the state-stack invariant -/
 theorem StackOk.toStOk (hc : CertFacts g t cert) {i : Nat} (hi : i < g.inputs.size)
     {stk : List Entry} {s : Nat} {syms : List Int} {w : List Nat}
     (h : StackOk g t i stk s syms w) :
-    ∃ rest, StOk g (coreX t) cert (s :: rest) syms ∧
+    ∃ rest, StOk g (coreX t) cert i (s :: rest) syms ∧
       stk.map (·.state) = (s :: rest).map Int.ofNat := by
+  have hcl := reachClosed_core hc
   induction h with
-  | base e he => exact ⟨[], .base i hi, by simp [he]⟩
+  | base e he => exact ⟨[], .base hi (hcl i hi).1, by simp [he]⟩
   | push e rest p X q syms w y _ _ hq hE _ ih =>
     obtain ⟨rest', h1, h2⟩ := ih
     obtain ⟨q', hq', _, hq2, hq3⟩ := edgeOk_elim (edge_ok hc hE)
     have : q' = q := by omega
     subst this
-    refine ⟨p :: rest', StOk.push q' p rest' X syms h1 ?_ hq2 hq3, ?_⟩
-    · rw [xedges_core]; exact edge_mem hE
-    · simp only [List.map_cons, List.cons.injEq]
-      exact ⟨hq, by simpa using h2⟩
+    have hedge : (p, X, (q' : Int)) ∈ xedges (coreX t) := by rw [xedges_core]; exact edge_mem hE
+    refine ⟨p :: rest', StOk.push q' p rest' X syms h1 hedge hq2 hq3
+      ((hcl i hi).2 p X q' hedge (h1.mem_reach p (by simp))), ?_⟩
+    simp only [List.map_cons, List.cons.injEq]
+    exact ⟨hq, by simpa using h2⟩
 
 
 /-- the decoded action is the table's action on the symbol of the next token -/
@@ -74,28 +81,38 @@ def rankW (t : Tables) (rc : XCert) : Nat := 4 * t.nStates + 12 + rc.weight
 
 /-- `W · (tokens left) + weight · (stack height) + rank of the top state under the next token's
 symbol` -/
-def psi (t : Tables) (rc : XCert) (inp : Input) (c : Cfg) : Nat :=
+def psi (t : Tables) (rc : XCert) (i : Nat) (inp : Input) (c : Cfg) : Nat :=
   rankW t rc * (inp.toks.size - nshift c.evs) + rc.weight * c.stack.length +
-    rankOf rc (symAt inp (nshift c.evs)) c.state.toNat
+    rankOf rc i (symAt inp (nshift c.evs)) c.state.toNat
 
 /-- a shift of EOI decreases the rank -/
-theorem _root_.TmVerif.LRX.RankFacts.eoi {g : Grammar} {x : XTables} {xc : XCert} (h : RankFacts g x xc) {s : Nat}
-    {q : Int} (hs : s < x.t.nStates) (h0 : 0 < x.t.nTerms)
+theorem _root_.TmVerif.LRX.RankFacts.eoi {g : Grammar} {x : XTables} {cert : Cert} {xc : XCert}
+    (h : RankFacts g x cert xc) {i s : Nat}
+    {q : Int} (hi : i < g.inputs.size) (hs : s < x.t.nStates) (h0 : 0 < x.t.nTerms)
+    (hsr : s ∈ reachOf cert i) (hfin : (s : Int) ≠ finOf x i)
     (hact : actOf x.t noDeep s (0 : Nat) = some (.shift q)) :
-    0 ≤ q ∧ rankOf xc 0 q.toNat + xc.weight + 1 ≤ rankOf xc 0 s := by
-  have := h.red 0 s h0 hs
+    0 ≤ q ∧ rankOf xc i 0 q.toNat + xc.weight + 1 ≤ rankOf xc i 0 s := by
+  have := h.red i 0 s hi h0 hs
   unfold reduceOk at this
   rw [hact] at this
-  simpa using this
+  simp only [Bool.or_eq_true, Bool.not_eq_true', List.contains_eq_mem, decide_eq_false_iff_not,
+    beq_iff_eq, bne_self_eq_false, Bool.false_or, Bool.and_eq_true, decide_eq_true_eq] at this
+  rcases this with (h1 | h1) | h1
+  · exact absurd hsr h1
+  · exact absurd h1 hfin
+  · exact h1
 
 theorem symAt_eq {inp : Input} {m a : Nat} (h : (inp.tok m).sym = (a : Int)) : symAt inp m = a := by
   unfold symAt; rw [h]; rfl
 
-theorem step_psi (hc : CertFacts g t cert) {rc : XCert} (hx : RankFacts g (coreX t) rc)
+theorem step_psi (hc : CertFacts g t cert) {rc : XCert} (hx : RankFacts g (coreX t) cert rc)
     {inp : Input} (htok : TokOk t inp) {i : Nat} (hi : i < g.inputs.size) (c c' : Cfg)
-    (hinv : Inv g t i inp c) (hs : step t inp c = .cont c') : psi t rc inp c' < psi t rc inp c := by
+    (hinv : Inv g t i inp c) (hne : c.state ≠ finOf (coreX t) i)
+    (hs : step t inp c = .cont c') : psi t rc i inp c' < psi t rc i inp c := by
   obtain ⟨s, syms, hstk, hst, hn⟩ := hinv
   obtain ⟨rest, hst1, hmap⟩ := hstk.toStOk hc hi
+  have hne' : (s : Int) ≠ finOf (coreX t) i := by rw [← hst]; exact hne
+  have hsr : s ∈ reachOf cert i := hst1.mem_reach s (by simp)
   have hlt : s < t.nStates := hstk.lt hc hi
   have h0 : 0 < t.nTerms := by have := (wfFacts hc.wf).nTermsPos; have := hc.nTerms; omega
   have hlen : c.stack.length = rest.length + 1 := by
@@ -110,8 +127,8 @@ theorem step_psi (hc : CertFacts g t cert) {rc : XCert} (hx : RankFacts g (coreX
     obtain ⟨e1, e2, e3, hn1, _⟩ := decode_spec hc htok h0 c c1 act s _ hlt hst hn hd
     obtain ⟨a, ha, hsym, hact⟩ := decode_act hc htok h0 c c1 act s _ hlt hst hn hd
     have hsa := symAt_eq hsym
-    have hpsi : psi t rc inp c = rankW t rc * (inp.toks.size - nshift c.evs) +
-        rc.weight * (rest.length + 1) + rankOf rc a s := by
+    have hpsi : psi t rc i inp c = rankW t rc * (inp.toks.size - nshift c.evs) +
+        rc.weight * (rest.length + 1) + rankOf rc i a s := by
       unfold psi; rw [hsa, hst, hlen]; rfl
     cases act with
     | error => rw [apply] at hs; cases hs
@@ -138,7 +155,7 @@ theorem step_psi (hc : CertFacts g t cert) {rc : XCert} (hx : RankFacts g (coreX
         subst hq'
         obtain ⟨a', ha1', ha2'⟩ := tok_range htok h0 (nshift c.evs + 1)
         have hsa' := symAt_eq ha1'
-        have hrb : rankOf rc a' q' ≤ 4 * t.nStates + 11 := hx.rankB a' q' ha2' hq2
+        have hrb : rankOf rc i a' q' ≤ 4 * t.nStates + 11 := hx.rankB i a' q' hi ha2' hq2
         have hmul : rc.weight * (rest.length + 1 + 1) = rc.weight * (rest.length + 1) + rc.weight := by
           rw [Nat.mul_add, Nat.mul_one]
         rw [hpsi]
@@ -153,7 +170,7 @@ theorem step_psi (hc : CertFacts g t cert) {rc : XCert} (hx : RankFacts g (coreX
             · exact h
           have ha0 : a' = 0 := by rw [← hsa']; exact symAt_ge inp (by omega)
           subst ha0
-          have := (hx.eoi (x := coreX t) hlt h0 hact).2
+          have := (hx.eoi (x := coreX t) hi hlt h0 hsr hne' hact).2
           rw [Int.toNat_natCast] at this
           have e1 : inp.toks.size - nshift c.evs = 0 := by omega
           have e2 : inp.toks.size - (nshift c.evs + 1) = 0 := by omega
@@ -172,7 +189,7 @@ theorem step_psi (hc : CertFacts g t cert) {rc : XCert} (hx : RankFacts g (coreX
       obtain ⟨ln, lhs, c2, off, endo, top, rest2, q, h1, h2, h3, h4, h5, h6, h7⟩ :=
         apply_reduce_cont hs
       obtain ⟨rule, p', rest', q0, hr0, hrule, hl, hsy, hdrop, hg, hnew, hrank⟩ :=
-        hst1.reduce (x := coreX t) hc hx ha hact
+        hst1.reduce (x := coreX t) hc hx (reachClosed_core hc) ha hne' hact
       have hl' : geti t.ruleLen r = some (rule.rhs.length : Int) := hl
       have hsy' : geti t.ruleSymbol r = some (rule.lhs : Int) := hsy
       rw [hl'] at h1; rw [hsy'] at h2
@@ -239,19 +256,21 @@ theorem step_not_fuel {inp : Input} {c c' : Cfg} : step t inp c ≠ .done .fuel 
   · intro h; cases h
   · exact apply_not_fuel _
 
-theorem runLoop_halts (hc : CertFacts g t cert) {rc : XCert} (hx : RankFacts g (coreX t) rc)
-    {inp : Input} (htok : TokOk t inp) {i : Nat} (hi : i < g.inputs.size) (fin : Int) :
-    ∀ (fuel : Nat) (c : Cfg), Inv g t i inp c → psi t rc inp c < fuel →
+theorem runLoop_halts (hc : CertFacts g t cert) {rc : XCert} (hx : RankFacts g (coreX t) cert rc)
+    {inp : Input} (htok : TokOk t inp) {i : Nat} (hi : i < g.inputs.size) (fin : Int)
+    (hfi : fin = finOf (coreX t) i) :
+    ∀ (fuel : Nat) (c : Cfg), Inv g t i inp c → psi t rc i inp c < fuel →
       (runLoop t inp fin fuel c).1 ≠ .fuel
   | 0, _, _, h => by omega
   | fuel + 1, c, hinv, h => by
     rw [runLoop]
     split
     · exact fun h => nomatch h
-    · split
+    · rename_i hne
+      split
       · rename_i c1 hstep
-        have := step_psi hc hx htok hi c c1 hinv hstep
-        exact runLoop_halts hc hx htok hi fin fuel c1 (step_inv hc htok hi c c1 hinv hstep)
+        have := step_psi hc hx htok hi c c1 hinv (by rw [← hfi]; exact hne) hstep
+        exact runLoop_halts hc hx htok hi fin hfi fuel c1 (step_inv hc htok hi c c1 hinv hstep)
           (by omega)
       · unfold errorAt; exact fun h => nomatch h
       · rename_i r c1 _ hstep
@@ -260,14 +279,14 @@ theorem runLoop_halts (hc : CertFacts g t cert) {rc : XCert} (hx : RankFacts g (
         subst hr
         exact step_not_fuel hstep
 
-theorem psi_init (hc : CertFacts g t cert) {rc : XCert} (hx : RankFacts g (coreX t) rc)
+theorem psi_init (hc : CertFacts g t cert) {rc : XCert} (hx : RankFacts g (coreX t) cert rc)
     {inp : Input} (htok : TokOk t inp) {i : Nat} (hi : i < g.inputs.size) :
-    psi t rc inp (initCfg inp i) < (inp.toks.size + 1) * rankW t rc := by
+    psi t rc i inp (initCfg inp i) < (inp.toks.size + 1) * rankW t rc := by
   have h0 : 0 < t.nTerms := by have := (wfFacts hc.wf).nTermsPos; have := hc.nTerms; omega
   obtain ⟨a, ha1, ha2⟩ := tok_range htok h0 0
   have hsa := symAt_eq ha1
-  have hrb : rankOf rc a i ≤ 4 * t.nStates + 11 :=
-    hx.rankB a i ha2 (show i < t.nStates by have := hc.nIn; omega)
+  have hrb : rankOf rc i a i ≤ 4 * t.nStates + 11 :=
+    hx.rankB i a i hi ha2 (show i < t.nStates by have := hc.nIn; omega)
   unfold psi
   simp only [initCfg, nshift, List.length_cons, List.length_nil, Nat.sub_zero, hsa,
     Int.toNat_natCast]
